@@ -146,6 +146,10 @@ class AddStream(Stream):
                     b_["S21"][0][0] = [0.25, -0.5]
                     if rng.random() < 0.5:      # the mirrored situation
                         a_["S12"], b_["S21"] = b_["S21"], a_["S12"]
+            if nsA == nsB and nsA >= 3 and K2 == K and rng.random() < 0.4:
+                # a closed sweep: the last slice repeats the first one, the interior differs
+                A[-1] = copy.deepcopy(A[0])
+                B[-1] = copy.deepcopy(B[0])
             descs.append({"A": A, "B": B, "batched": batched})
         # the empty batch (a sweep of no points): the result is the empty stack with the dimensions of the join
         for (N, K, M) in [(1, 1, 1), (2, 1, 0), (0, 2, 1), (1, 2, 2)]:
